@@ -17,7 +17,7 @@ TV : premise P6, the glue of the HMC / NUTS kernels with blackjax (Trace_Glue): 
      refreshed, other parameters and the tuning state are untouched.
 Premises decided in depth under their own ids: P1 acceptance rule = C05, P2 corrections =
 C06, P3 exact conditionals = C13, P4 sequencing / coherence = C09, P5 frozen tuning = C11.
-A reduced conformance run of P1-P3 (same trace specs, fewer scenarios) is part of this
+A reduced conformance run of P1-P5 (same trace specs, fewer scenarios) is part of this
 check as well, so that a broken premise is reported under C04 too (keys `premise:P<k>:...`),
 plus P7: the kernels of a sequence are handed independent keys (engine traces, `engine:...`).
 Not decided: that blackjax's integrators / trajectory samplers are pi-invariant, and PRNG
@@ -78,13 +78,19 @@ def premises(chk, rng):
     # P3: Gibbs kernels draw from the exact full conditional of the *current* model state
     gt = [{"hdr": {"kind": "tau2", "d": 3, "order": 1, "nontrivial": True}, "ev": gibbs_driver.tau2_events(rng, 3, 1, nkeys=3)},
           {"hdr": {"kind": "bernoulli_direct", "nontrivial": True},
-           "ev": gibbs_driver.discrete_events(rng, "bernoulli_direct", nkeys=64)}]
+           "ev": gibbs_driver.discrete_events(rng, "bernoulli_direct", nkeys=64)},
+          {"hdr": {"kind": "finite_via_named_var", "nontrivial": True},
+           "ev": gibbs_driver.discrete_events(rng, "finite_via_named_var", nkeys=64)}]
     chk.tv("Trace_Gibbs.tla", gt, tag="premise_P3_conditionals", keyfn=lambda r: f"premise:P3:{r.trace['hdr']['kind']}:{r.conjunct}")
     # P4: the state a kernel hands on is coherent (Liesel model with a weak distributed variable and a default-transformed
     # parameter whose bijector depends on another sampled parameter), closed form as the oracle
     ct = [t for r in parallel.run_jobs("harness.comp_driver", "run", [dict(seq="rw_hi_u_ab", model_kind="liesel2", seed=chk.seed + 3)])
           for t in r]
     chk.tv("Trace_Composition.tla", ct, tag="premise_P4_coherence", keyfn=lambda r: f"premise:P4:{r.conjunct}")
+    # P5: tuning parameters are frozen outside adaptation epochs (burn-in and posterior transitions are not adaptive)
+    from harness import da_driver
+    dt = da_driver.engine_traces(["rw", "mh_on"], (0.3, 0.2, 0.9, 25, 0.5), da_driver.SCHEDULES[0], chains=2, seed=chk.seed)
+    chk.tv("Trace_DA.tla", dt, tag="premise_P5_frozen_tuning", keyfn=lambda r: f"premise:P5:{r.trace['hdr'].get('kernel', '')}:{r.conjunct}")
     # P7: the kernels of a sequence draw from independent random streams (no call's key is a split child of another's)
     from checks import engine_common as EC
     EC.validate(chk, EC.run_scenarios(chk, EC.handwritten(True)[:2], "premise_P7_keys"), "premise_P7_keys")
